@@ -43,8 +43,11 @@ pub fn configs_c09(tier: Tier) -> Vec<Box<dyn Config>> {
 pub fn configs_c10(tier: Tier) -> Vec<Box<dyn Config>> {
     let sse2 = super::width() == 16;
     let q = tier == Tier::Quick;
+    let mut pre: Vec<Box<dyn Config>> = Vec::new();
+    // removal while a destructor or predicate panics: exactly the selected elements must be gone (details: C04)
+    pre.push(super::c04::mk::<TKey, TVal>(Plan::Zero, if q { 4 } else { 6 }, vec![vec![]], None, tier, false, "-faults"));
     let p = vec![Probe::Removal { max_subset_len: if q { 8 } else { 11 } }];
-    let mut v = Vec::new();
+    let mut v = pre;
     if sse2 {
         v.push(map_cfg(Plan::Zero, if q { 11 } else { 14 }, p.clone(), tier, "map-removal"));
         v.push(map_cfg(Plan::Seq, if q { 4 } else { 6 }, p.clone(), tier, "map-removal"));
